@@ -6,8 +6,9 @@ from d42 import optional, schema, validate
 from d42.declaration.types import (AnySchema, DictSchema, FloatSchema, IntSchema, ListSchema, StrSchema)
 
 MODULE = "D42.Props.C15"
-THEOREMS = []
-FILES = ["D42/Model/Data.lean", "D42/Model/Validate.lean", "D42/Model/Eq.lean", "D42/Props/C15.lean"]
+THEOREMS = ["pyEq_refl", "pyEq_symm", "pyEqValue_iff", "scalarEq_same_meaning", "pyEq_discriminates_int", "pyEq_dict_flags",
+            "pyEq_nan_counterexample", "pyEq_universal_counterexample"]
+FILES = ["D42/Model/Data.lean", "D42/Model/Validate.lean", "D42/Model/Eq.lean", "D42/Spec/Conforms.lean", "D42/Props/C02.lean", "D42/Props/C15.lean"]
 
 EVIDENCE = dict(
     level="proof",
